@@ -43,15 +43,18 @@ fn main() {
             let sh = Arc::new(Mutex::new(Shared { agg: Agg::new(samples), next: from, arm: arm.clone(), base, out_prefix, cur_replay: serde_json::Value::Null, cur_seed: 0 }));
             {
                 let sh2 = sh.clone();
-                solve::set_fatal_hook(Some(Box::new(move |viol, stats| {
+                solve::set_fatal_hook(Some(Box::new(move |viol, rep| {
                     // the scheduler declared the run dead (deadlock / step bound): report and let the process die
                     let mut g = sh2.lock().unwrap();
                     let run = g.next;
                     g.agg.runs += 1;
                     g.agg.add("fatal_runs", 1);
-                    g.agg.add("sched_steps", stats.steps as u64);
+                    g.agg.add("sched_steps", rep.stats.steps as u64);
                     let harness = viol.props.is_empty();
-                    let rec = ViolationRecord { arm: g.arm.clone(), seed: g.cur_seed, run, violations: vec![viol.clone()], replay: g.cur_replay.clone() };
+                    // pin the schedule that led here
+                    let mut replay = g.cur_replay.clone();
+                    if let Some(sc) = replay.get_mut("scenario") { sc["strategy"] = serde_json::json!({"Forced": rep.schedule}); }
+                    let rec = ViolationRecord { arm: g.arm.clone(), seed: g.cur_seed, run, violations: vec![viol.clone()], replay };
                     println!("{}", serde_json::json!({"violation": rec, "harness_error": harness}));
                     g.next = run + 1;
                     print_summary(&g);
@@ -67,12 +70,12 @@ fn main() {
                     let shc = sh.clone();
                     let pre = move |sc: &solve::Scenario| { let mut g = shc.lock().unwrap(); g.cur_seed = sc.seed; g.cur_replay = serde_json::json!({"kind": "solver", "scenario": sc}); };
                     { let mut g = sh.lock().unwrap(); g.next = i; g.cur_seed = seed; g.cur_replay = serde_json::json!({"kind": "seed", "arm": arm, "seed": seed}); }
-                    // the aggregator is taken out of the shared cell while the run executes (the fatal hook needs the lock)
-                    let mut agg = std::mem::take(&mut sh.lock().unwrap().agg);
+                    // every run has its own small aggregator, merged afterwards (the fatal hook needs the shared one)
+                    let mut agg = { let g = sh.lock().unwrap(); Agg::new(g.agg.max_samples - g.agg.samples.len().min(g.agg.max_samples)) };
                     let r = if arms::solver_arm_opts(&arm).is_some() { arms::run_solver_arm(&arm, seed, i, &mut agg, &pre) }
                         else if arm == "seq-sweep" { arms::run_seq_sweep(seed, i, &mut agg, None) }
                         else { history::run_history_arm(&arm, seed, i, &mut agg).unwrap_or_else(|| { eprintln!("unknown arm {arm}"); std::process::exit(2) }) };
-                    sh.lock().unwrap().agg = agg;
+                    sh.lock().unwrap().agg.merge(agg);
                     r
                 };
                 i += 1;
@@ -95,7 +98,7 @@ fn main() {
             let sh = Arc::new(Mutex::new(None::<ViolationRecord>));
             {
                 let p2 = payload.clone();
-                solve::set_fatal_hook(Some(Box::new(move |viol, _stats| {
+                solve::set_fatal_hook(Some(Box::new(move |viol, _rep| {
                     let rec = ViolationRecord { arm: "replay".into(), seed: 0, run: 0, violations: vec![viol.clone()], replay: p2.clone() };
                     println!("{}", serde_json::json!({"violation": rec, "harness_error": viol.props.is_empty()}));
                 })));
